@@ -200,6 +200,7 @@ func init() {
 			c.ruleRatchets("C04")
 			c.ruleCheckedIsEmitted("E3.checked-is-emitted")
 			c.ruleMaskAgreement("E3.mask-agreement", []string{"pkg/packet/bgp"}, 1)
+			c.ruleDeadByteStore("E3.dead-octet", []string{"pkg/packet/bgp"}, 5)
 			c.ruleDecodeProduces("E4.decode-produces", []string{"pkg/packet/bgp"}, 150)
 			c.ruleAttrTables()
 			c.rulePurity("E2d.pure", []string{"pkg/packet/bgp"}, 500)
@@ -235,6 +236,7 @@ func init() {
 		Run: func(c *Ctx) {
 			c.ruleRatchets("C19")
 			c.ruleMaskAgreement("E3.mask-agreement", []string{"pkg/packet/bfd", "pkg/packet/bmp", "pkg/packet/mrt", "pkg/packet/rtr", "pkg/zebra"}, 1)
+			c.ruleDeadByteStore("E3.dead-octet", []string{"pkg/packet/bfd", "pkg/packet/bmp", "pkg/packet/mrt", "pkg/packet/rtr", "pkg/zebra"}, 3)
 			c.rulePackSerializeSameOptions("E6.pack-serialize-same-options", 2)
 			c.ruleInputImmutable("E2c.input", []string{"pkg/packet/mrt", "pkg/packet/bmp", "pkg/packet/rtr", "pkg/packet/bfd", "pkg/zebra"}, 45)
 			c.ruleDecodeProduces("E4.decode-produces", []string{"pkg/packet/bmp", "pkg/packet/mrt", "pkg/packet/rtr"}, 20)
